@@ -39,6 +39,12 @@ Theorem C04_pending_agreement_preserved : forall s e c, pending_agrees s = true 
 Proof. exact step_pending. Qed.
 Print Assumptions C04_pending_agreement_preserved.
 
+(* no slash call ever changes the basis (Amount) of an undelegation record: cuts are always measured on the original amount *)
+Theorem C04_amount_basis_preserved : forall s e c,
+  map (fun r => (u_id r, u_amount r)) (s_recs (fst (step s e c))) = map (fun r => (u_id r, u_amount r)) (s_recs s).
+Proof. exact step_basis. Qed.
+Print Assumptions C04_amount_basis_preserved.
+
 Theorem C04_run_meets_statement : forall h s, st_nonneg s = true -> pending_agrees s = true -> hist_wf s h = true -> all_steps_ok s h = true.
 Proof.
   induction h as [|[e c] t IH]; intros s Hnn Hpa H; simpl in *; [reflexivity|].
